@@ -15,7 +15,9 @@ package services
 
 import (
 	"context"
+	"encoding/binary"
 	"fmt"
+	"io"
 	"net"
 
 	"github.com/honeytrap/honeytrap/director"
@@ -51,10 +53,51 @@ func (s *dnsProxy) SetChannel(c pushers.Channel) {
 	s.c = c
 }
 
+// record reports a relayed query; the DNS fields are added when the message decodes.
+func (s *dnsProxy) record(conn net.Conn, msg []byte) {
+	options := []event.Option{
+		EventOptions,
+		event.Category("dns-proxy"),
+		event.Type("dns"),
+		event.Protocol(conn.RemoteAddr().Network()),
+		event.SourceAddr(conn.RemoteAddr()),
+		event.DestinationAddr(conn.LocalAddr()),
+	}
+
+	req := new(dns.Msg)
+	if err := req.Unpack(msg); err != nil {
+		options = append(options, event.Payload(msg))
+	} else {
+		options = append(options,
+			event.Custom("dns.id", fmt.Sprintf("%d", req.Id)),
+			event.Custom("dns.opcode", fmt.Sprintf("%d", req.Opcode)),
+			event.Custom("dns.message", fmt.Sprintf("Querying for: %#q", req.Question)),
+			event.Custom("dns.questions", req.Question),
+		)
+	}
+
+	s.c.Send(event.New(options...))
+}
+
+// readMessage reads one DNS-over-TCP message, which is preceded by its two-byte length
+// (RFC 1035 4.2.2), into buff and returns it with the prefix.
+func readMessage(r io.Reader, buff []byte) ([]byte, error) {
+	if _, err := io.ReadFull(r, buff[:2]); err != nil {
+		return nil, err
+	}
+
+	n := 2 + int(binary.BigEndian.Uint16(buff[:2]))
+	if _, err := io.ReadFull(r, buff[2:n]); err != nil {
+		return nil, err
+	}
+
+	return buff[:n], nil
+}
+
 func (s *dnsProxy) Handle(ctx context.Context, conn net.Conn) error {
 	defer conn.Close()
 
-	buff := [65535]byte{}
+	buff := [2 + 65535]byte{}
 
 	if network := conn.RemoteAddr().Network(); network == "udp" {
 		n, err := conn.Read(buff[:])
@@ -69,27 +112,11 @@ func (s *dnsProxy) Handle(ctx context.Context, conn net.Conn) error {
 
 		defer conn2.Close()
 
+		s.record(conn, buff[:n])
+
 		if _, err = conn2.Write(buff[:n]); err != nil {
 			return err
 		}
-
-		req := new(dns.Msg)
-		if err := req.Unpack(buff[:n]); err != nil {
-			return err
-		}
-
-		s.c.Send(event.New(
-			EventOptions,
-			event.Category("dns-proxy"),
-			event.Type("dns"),
-			event.Protocol(conn.RemoteAddr().Network()),
-			event.SourceAddr(conn.RemoteAddr()),
-			event.DestinationAddr(conn.LocalAddr()),
-			event.Custom("dns.id", fmt.Sprintf("%d", req.Id)),
-			event.Custom("dns.opcode", fmt.Sprintf("%d", req.Opcode)),
-			event.Custom("dns.message", fmt.Sprintf("Querying for: %#q", req.Question)),
-			event.Custom("dns.questions", req.Question),
-		))
 
 		if n, err = conn2.Read(buff[:]); err != nil {
 			return err
@@ -101,29 +128,6 @@ func (s *dnsProxy) Handle(ctx context.Context, conn net.Conn) error {
 
 		return err
 	} else if network == "tcp" {
-		n, err := conn.Read(buff[:])
-		if err != nil {
-			return err
-		}
-
-		req := new(dns.Msg)
-		if err := req.Unpack(buff[:n]); err != nil {
-			return err
-		}
-
-		s.c.Send(event.New(
-			EventOptions,
-			event.Category("dns-proxy"),
-			event.Type("dns"),
-			event.Protocol(conn.RemoteAddr().Network()),
-			event.SourceAddr(conn.RemoteAddr()),
-			event.DestinationAddr(conn.LocalAddr()),
-			event.Custom("dns.id", fmt.Sprintf("%d", req.Id)),
-			event.Custom("dns.opcode", fmt.Sprintf("%d", req.Opcode)),
-			event.Custom("dns.message", fmt.Sprintf("Querying for: %#q", req.Question)),
-			event.Custom("dns.questions", req.Question),
-		))
-
 		conn2, err := s.d.Dial(conn)
 		if err != nil {
 			return err
@@ -131,19 +135,28 @@ func (s *dnsProxy) Handle(ctx context.Context, conn net.Conn) error {
 
 		defer conn2.Close()
 
-		if _, err = conn2.Write(buff[:n]); err != nil {
-			return err
-		}
+		for {
+			msg, err := readMessage(conn, buff[:])
+			if err == io.EOF {
+				return nil
+			} else if err != nil {
+				return err
+			}
 
-		if n, err = conn2.Read(buff[:]); err != nil {
-			return err
-		}
+			s.record(conn, msg[2:])
 
-		if _, err = conn.Write(buff[:n]); err != nil {
-			return err
-		}
+			if _, err = conn2.Write(msg); err != nil {
+				return err
+			}
 
-		return nil
+			if msg, err = readMessage(conn2, buff[:]); err != nil {
+				return err
+			}
+
+			if _, err = conn.Write(msg); err != nil {
+				return err
+			}
+		}
 	} else {
 		return nil
 	}
